@@ -31,7 +31,7 @@ func init() {
 
 // c02once: in put(m), the message is handed to exactly one place.
 func c02once(c *an.Ctx) {
-	wtb := c.Fn("nsqd", "writeMessageToBackend")
+	wtb := backendWriterFn(c)
 	if wtb == nil {
 		return
 	}
@@ -335,7 +335,7 @@ func c06lockfile(c *an.Ctx) {
 
 // c07record: one Put = one message.
 func c07record(c *an.Ctx) {
-	wtb := c.Fn("nsqd", "writeMessageToBackend")
+	wtb := backendWriterFn(c)
 	get := c.Fn("nsqd", "bufferPoolGet")
 	put := c.Fn("nsqd", "bufferPoolPut")
 	writeTo := c.Fn("nsqd", "(*Message).WriteTo")
